@@ -611,14 +611,17 @@ def staticLimitLoop (key : List Prim → Option Nat) (maxv : Nat) (keep : List (
         | .error e => .error e
         | .ok (o, tp) => .ok (ind :: o, tp)
 
-/-- the wrapper: `op` maps the argument trees and the tape to the returned trees -/
-def staticLimit (key : List Prim → Option Nat) (maxv : Nat)
+/-- the wrapper: `op` maps the argument trees and the tape to the returned trees.  `args` = all the trees given
+to the operator, of which the first `npos` are passed POSITIONALLY (the others by keyword, e.g.
+`mate(ind1, ind2=ind2)`): only positional arguments are copied into `keep_inds` (gp.py:957), then cut to one
+per returned tree (gp.py:960).  Every returned tree is measured (gp.py:961-963); with no positional tree the
+pool is empty and an over-limit child makes `random.choice` raise. -/
+def staticLimit (key : List Prim → Option Nat) (maxv : Nat) (npos : Nat)
     (op : List (List Prim) → Tape → R (List (List Prim) × Tape))
     (args : List (List Prim)) (tp : Tape) : R (List (List Prim) × Tape) :=
-  match op args tp with                                                  -- :941
+  match op args tp with                                                  -- :958
   | .error e => .error e
-  -- keep_inds = copies of the leading arguments, one per returned tree (gp.py:957, 960)
-  | .ok (new, tp) => staticLimitLoop key maxv (args.take new.length) new tp
+  | .ok (new, tp) => staticLimitLoop key maxv ((args.take npos).take new.length) new tp
 
 /-! ## List-level checkers used by the theorems and the driver -/
 
